@@ -18,6 +18,39 @@ CHECKS = {
             "differential correspondence (exhaustive small scope, dtype thresholds, random, shipped instances).",
             TB + "numba int64 promotion and x[-1] wrap, moptipy int_range_to_dtype (modelled, threshold-checked), sanitize_name.",
             "Lean 4 proof (induction over tours, List.Perm re-indexing) + model/implementation correspondence", "6/C05"),
+    "C06": ("proof",
+            "15 Lean theorems, no residue: the O(1) delta equals the true change of tour length for every i<j<n except the whole array "
+            "(symmetric d, any permutation, incl. the x[i-1] wrap and (j+1)%n), reversal = segment reversal and permutation-preserving, "
+            "every (x,y) registered by EA and FEA is (permutation, exact cyclic edge sum) for all start tours and all draw sequences, EA "
+            "lengths non-increasing, every FEA table index in [0, ub] on accepted instances, kernels/solve memory-safe, int64 arithmetic "
+            "within +-2^62. Tie: stub-process replay of both real solve methods, direct kernel calls on all (i,j), bounds-checked pre-pass.",
+            TB + "numpy RNG (scripted), moptipy Process (stub), numba compilation of slices/negative wrap.",
+            "Lean 4 proof (induction over move lists, list-segment reversal lemmas) + stub-process correspondence", "6/C06"),
+    "C08": ("proof",
+            "12 Lean theorems: kernel = tournament walk model (home, venue of each away opponent, home) + penalty per bye for all "
+            "plans/matrices; no OOB on the space; lower/upper bound and strict increase on replacing any game by a bye for every "
+            "constructor-accepted instance (no triangle inequality); upper bound tight; int64 range under upper_bound < 2^63. The four-team "
+            "optimum clause is a finite table decided by exhaustive enumeration of all 7 x 12^6 plans with the real kernels (labelled "
+            "enumeration, not proof).",
+            TB + "known finding overflow_int64 (upper_bound() can exceed 2^63 for accepted instances); count_errors == 0 as feasibility "
+            "filter in the optimum clause (C07).",
+            "Lean 4 proof (per-team walk induction) + correspondence + exhaustive enumeration of the four-team table", "6/C08"),
+    "C09": ("proof",
+            "17 Lean theorems: loop = documented double sum; no OOB; rearrangement-inequality bounds lb <= value <= ub for every "
+            "permutation (exchange argument on sorted lists); uint64 trivial_bounds kernel and int64 accumulator exact (partial sums < 2^53 "
+            "when ub < 10^15); stored = given for every accepted constructor call; the QAPLIB parser accepts exactly the texts listing n, n^2 "
+            "flows, n^2 distances on separate lines (iff), straddling lines raise, no silent misparse. Tie: differential correspondence "
+            "(all dtype thresholds +-1, all wrappings of small texts, random, shipped QAPLIB).",
+            TB + "numba 0.60 int64 accumulator / uint64 wrap, numpy sort/astype, moptipy int_range_to_dtype, Python str.split/int() on ASCII.",
+            "Lean 4 proof (sorted-list exchange argument, parser state machine) + correspondence", "6/C09"),
+    "C15": ("proof",
+            "19 Lean theorems for all n >= 2, all rounds, all integer lists: the blueprint contains each pairing exactly `rounds` times with "
+            "pair and team home/away counts differing by <= 1 (closed-form parity argument), and the array-level model of map_games returns "
+            "exactly the plan of the unique earliest-slot schedule, independent of prior destination content: consistent, no self-play, once "
+            "per day, values in -n..n, no game more often than in x, no OOB, ZeroDivisionError exactly for n < 2. Tie: all blueprints n <= "
+            "40/120 x rounds <= 7, exhaustive permutations of multisets of <= 8 games, random, dirty destinations, real GameEncoding objects.",
+            TB + "numba floor-division semantics, moptipy Permutations (only non-emptiness/sortedness used).",
+            "Lean 4 proof (refinement of the loop to an explicit list, inductive EarliestSlot relation + uniqueness) + correspondence", "6/C15"),
 }
 NOT_YET = "check not built yet (work in progress; see DESIGN.md section 6)"
 
